@@ -14,8 +14,10 @@ CLAIM = ('Proved in Coq for the model, Numbers naming, direct mode, EVERY histor
          'every acknowledged direct-mode record and every later record is in the stream in order (a tail under a cleanup limit; '
          'an archive next to its complete original is ignored), and that a configured symlink leads to the file being written; '
          'the model predicts the directory the kill leaves and everything after it (correspondence): partial. Assumption: each '
-         'file-system call is atomic with respect to the kill, and a killed process loses no page-cache data. ')
-THEOREMS = ["C11_numbers_kill_keeps_acked", "C11_numbers_kill_restart", "C11_dead_no_effect", "C11_kill_point", "C11_alive_effect"]
+         'file-system call is atomic with respect to the kill, and a killed process loses no page-cache data. The two '
+         'history-level theorems are also proved for NumbersDirect naming (C11_numbersdirect_kill_keeps_acked, '
+         'C11_numbersdirect_kill_restart). ')
+THEOREMS = ["C11_numbers_kill_keeps_acked", "C11_numbers_kill_restart", "C11_dead_no_effect", "C11_kill_point", "C11_alive_effect", "C11_numbersdirect_kill_keeps_acked", "C11_numbersdirect_kill_restart"]
 TRUSTED = ["assumed: atomicity of single file-system calls under SIGABRT, no loss of written data in the page cache; the kill happens at "
            "the hook point immediately before a call, never inside one"]
 ASSUMPTIONS = ["the virtual clock does not advance within a crash history (file birth times are not carried over to the restarted process)"]
